@@ -353,6 +353,7 @@ type c02Peer struct {
 	err      error
 	eof      bool
 	gc       gnet.Conn
+	nread    atomic.Int64
 }
 
 func (p *c02Peer) readAll(r *vlib.Rand, d func() *c02Conn) {
@@ -385,6 +386,7 @@ func (p *c02Peer) readAll(r *vlib.Rand, d func() *c02Conn) {
 		}
 		n, err := p.conn.Read(b)
 		p.data = append(p.data, b[:n]...)
+		p.nread.Add(int64(n))
 		if err != nil {
 			if errors.Is(err, io.EOF) {
 				p.eof = true
@@ -670,9 +672,21 @@ func runC02Case(c cfg, seed uint64, npeers int, keys map[string]struct{}) (evals
 					res.Inconc("c02 %s: async callbacks outstanding: %s", c, verdict)
 				}
 			}
+			// drain: no further stimulus from the harness. The peer keeps reading; everything accepted must
+			// arrive without anybody waking the loop again (observed at the peer, not through the Conn).
+			ok, verdict = waitCond(10*time.Second, func() bool {
+				return d.closedSeen.Load() || d.failed.Load() || p.nread.Load() >= d.accepted.Load()+int64(len(d.openReply))
+			})
+			if !ok && !d.failed.Load() {
+				if verdictStuck(verdict) {
+					s.fail(mon, cs, d, "stall: accepted data never sent although the peer keeps reading", fmt.Sprintf("peer (%s) has read %d bytes and keeps reading; %d bytes were accepted; OutboundBuffered last seen %d; %s", p.schedule, p.nread.Load(), d.accepted.Load(), d.maxBuffered.Load(), verdict))
+				} else {
+					res.Inconc("c02 %s: output did not drain: %s", c, verdict)
+				}
+			}
 			d.closing.Store(true)
-			ok, verdict = waitCond(15*time.Second, func() bool {
-				if d.closedSeen.Load() {
+			ok, verdict = waitCond(10*time.Second, func() bool {
+				if d.closedSeen.Load() || d.failed.Load() {
 					return true
 				}
 				_ = cs.c.Wake(nil)
@@ -680,11 +694,7 @@ func runC02Case(c cfg, seed uint64, npeers int, keys map[string]struct{}) (evals
 				return d.closedSeen.Load()
 			})
 			if !ok && !d.failed.Load() {
-				if verdictStuck(verdict) {
-					s.fail(mon, cs, d, "stall: accepted data never sent although the peer keeps reading", fmt.Sprintf("peer (%s) has read %d bytes and keeps reading; OutboundBuffered last seen %d; accepted %d; %s", p.schedule, len(p.data), d.maxBuffered.Load(), d.accepted.Load(), verdict))
-				} else {
-					res.Inconc("c02 %s: output did not drain: %s", c, verdict)
-				}
+				res.Inconc("c02 %s: connection did not close after draining: %s", c, verdict)
 			}
 			select {
 			case <-rdone:
